@@ -59,12 +59,14 @@ static inline unsigned char *verif_alloc(size_t n)
 #define IN_U32(name) (IN_##name = nondet_unsigned())
 #define IN_U64_DECL(name) uint64_t IN_##name
 #define IN_U64(name) (IN_##name = nondet_ulong())
+#define IN_U64_AT(name, i) (IN_##name[i] = nondet_ulong())     /* element i of a uint64_t IN_<name>[] array */
 #else /* native replay */
 #include <stdio.h>
 #include <string.h>
 void verif_native_init(int argc, char **argv);
 void verif_native_bytes(const char *name, unsigned char *p, size_t n);
 uint64_t verif_native_u64(const char *name);
+uint64_t verif_native_u64_idx(const char *name, unsigned idx);
 #define CHECK(cond, desc) do { if (!(cond)) { printf("ASSERT-FAIL %s:%d %s\n", __FILE__, __LINE__, desc); fflush(stdout); exit(1); } } while (0)
 #define ASSUME(cond) do { if (!(cond)) { printf("ASSUME-UNMET %s:%d\n", __FILE__, __LINE__); fflush(stdout); exit(77); } } while (0)
 #define WITNESS() do { printf("REPLAY-END\n"); } while (0)
@@ -89,6 +91,7 @@ static inline unsigned char *verif_alloc(size_t n)
 #define IN_U32(name) (IN_##name = (uint32_t)verif_native_u64(#name))
 #define IN_U64_DECL(name) uint64_t IN_##name
 #define IN_U64(name) (IN_##name = verif_native_u64(#name))
+#define IN_U64_AT(name, i) (IN_##name[i] = verif_native_u64_idx(#name, (unsigned)(i)))
 #define __CPROVER_assume(c) ASSUME(c)
 #endif
 
